@@ -4,6 +4,7 @@ package harness
 
 import (
 	"fmt"
+	"math"
 	"sort"
 	"testing"
 	"testing/synctest"
@@ -46,6 +47,11 @@ func genC11(t *rapid.T) c11Case {
 	c.Stack.Strategy = rapid.SampledFrom([]string{"simple", "precise"}).Draw(t, "strategy")
 	c.Stack.Backlog = rapid.IntRange(2, 6).Draw(t, "backlog")
 	c.Stack.TimeoutMs = rapid.SampledFrom([]int{10, 10, 20, 20, 40, 100, 1000}).Draw(t, "timeout")
+	if rapid.IntRange(0, 7).Draw(t, "forever") == 0 {
+		// "wait for as long as it takes": the largest durations there are; only releases (and evicting cancellations) end a wait
+		c.Stack.TimeoutMs = 0
+		c.Stack.TimeoutNs = rapid.SampledFrom([]int64{math.MaxInt64, math.MaxInt64 - 1, math.MaxInt64 / 2, int64(250 * 365 * 24 * time.Hour)}).Draw(t, "foreverNs")
+	}
 	switch c.Stack.Kind {
 	case "queue":
 		c.Stack.Ordering = rapid.SampledFrom([]string{"fifo", "lifo", ""}).Draw(t, "ordering")
@@ -107,6 +113,13 @@ func runC11InBubble(c c11Case) (out kit.Outcome) {
 	}
 	limit := c.Stack.Limit
 	timeout := c.Stack.effTimeout()
+	unwindFor := timeout + 2*time.Second
+	if timeout > 100*365*24*time.Hour {
+		// a wait that no clock outlasts: nobody expires within the case (the model's expiry instant is simply far away,
+		// kept small enough not to overflow), and the case is unwound by releases and cancellations
+		timeout = 100 * 365 * 24 * time.Hour
+		unwindFor = 2 * time.Second
+	}
 	maxBacklog := c.Stack.effBacklog()
 	evict := c.Stack.Evict && !c.Stack.Defaults
 
@@ -122,7 +135,7 @@ func runC11InBubble(c c11Case) (out kit.Outcome) {
 	goneAhead := false // some caller that was ahead in line left by timeout/cancel
 
 	finish := func(reason string) kit.Outcome {
-		msg := w.unwind(timeout + 2*time.Second)
+		msg := w.unwind(unwindFor)
 		w.flush()
 		_ = msg
 		return kit.Viol(kind+":order", "%s", reason)
@@ -278,7 +291,7 @@ func runC11InBubble(c c11Case) (out kit.Outcome) {
 			return finish(msg)
 		}
 	}
-	if msg := w.unwind(timeout + 2*time.Second); msg != "" {
+	if msg := w.unwind(unwindFor); msg != "" {
 		w.flush()
 		return kit.Viol(kind+":stuck", "%s", msg)
 	}
